@@ -11,6 +11,7 @@ pub mod c18;
 pub mod c19;
 pub mod c20;
 pub mod c12;
+pub mod c13;
 pub mod c14;
 pub mod syncsys;
 pub mod syncworld;
